@@ -13,7 +13,7 @@ from mzverif.core import Sub, Violation, call, require
 
 ID = "C14"
 LEVEL = "exploration"
-TECHNIQUE = "exhaustive: all 4096 positions against a frozen golden list and an independently reconstructed layout, corner-first property for every n <= 50 and (order itself + legacy prefix / row-major properties) for sizes up to 256 (thorough 300), legacy vocabularies x 3 modes x sizes 1..50, all prefix pairs; Hypothesis: codec round trips (re-asked after the caller edited earlier results), construction-order and in-place resize histories, unknown tokens / ids (above and below the vocabulary), every single-edit near miss of every vocabulary token; unknown tokens / ids through the list and the joined form of both codecs"
+TECHNIQUE = "exhaustive: all 4096 positions against a frozen golden list and an independently reconstructed layout, corner-first property for every n <= 50 and (order itself + legacy prefix / row-major properties) for sizes up to 256 (thorough 300), legacy vocabularies x 3 modes x sizes 1..50, all prefix pairs; Hypothesis: codec round trips (re-asked after the caller edited earlier results), construction-order and in-place resize histories, unknown tokens / ids (above and below the vocabulary), every single-edit near miss of every vocabulary token; unknown tokens / ids through the list and the joined form of both codecs; the same check on several cases at once, one thread each (interleavings sampled)"
 RULE = (
     "position case = vocabulary index i (all 4096); legacy case = (mode, n) for n in 1..50, also sequences of such constructions in one process in arbitrary order; prefix case = (n, m), n<m<=50; sequence "
     "case = (vocabulary, list of ids) run through decode->encode and encode->decode as list and as joined string; unknown case = a "
@@ -409,6 +409,7 @@ def subs(tier: str):
                                                     "resize": st.lists(st.integers(1, 30), max_size=3), "touch": st.sampled_from([None, 0, 1, 2])}),
             examples=80 if q else 3000),
         Sub("sequences", check_seq, "hypothesis", strategy=_seq, examples=250 if q else 15000),
+        Sub("concurrent-threads", core.threaded(check_seq), "hypothesis", strategy=core.threaded_strategy(_seq), examples=10 if q else 300, ambient=False),
         Sub("near-miss-tokens", check_unknown, "exhaustive", cases=_near_miss_cases),
         Sub("unknown", check_unknown, "hypothesis", strategy=_unknown, examples=150 if q else 8000),
     ]
